@@ -254,7 +254,11 @@ func (o *oracle) checkMessage(name string, fs []Fld, sc *scope, where string) {
 				o.add("label-differs-from-design", fmt.Sprintf("%s: designed %s primitive must have label %q, file has %q", w, map[bool]string{true: "required", false: "optional"}[f.Req], want, pf.Label), nil)
 			}
 			if pf.Type != scalarOf[prim] {
-				o.add("type-differs-from-design", fmt.Sprintf("%s: designed %s must be proto %s, file says %s", w, prim, scalarOf[prim], pf.Type), nil)
+				sig := "type-differs-from-design"
+				if oneof != "" && o.unionAltClash(oneof, f) {
+					sig = "oneof-alternative-type-name-collision"
+				}
+				o.add(sig, fmt.Sprintf("%s: designed %s must be proto %s, file says %s", w, prim, scalarOf[prim], pf.Type), nil)
 			}
 		case obj != nil:
 			if pf.Label != "" {
@@ -275,6 +279,39 @@ func (o *oracle) checkMessage(name string, fs []Fld, sc *scope, where string) {
 		one(f, m.Fields[i], "")
 		i++
 	}
+}
+
+// unionAltClash: does the design hold another union with this name and an alternative
+// with this name but another type (goa names the wrapper type of a primitive
+// alternative <union><Alternative>, whichever union it belongs to)?
+func (o *oracle) unionAltClash(union string, alt *Fld) bool {
+	clash := false
+	var visit func(fs []Fld)
+	visit = func(fs []Fld) {
+		for i := range fs {
+			if fs[i].Alts != nil && fs[i].Name == union {
+				for j := range fs[i].Alts {
+					a := &fs[i].Alts[j]
+					if a != alt && a.Name == alt.Name && fmt.Sprint(*a.T) != fmt.Sprint(*alt.T) {
+						clash = true
+					}
+				}
+			}
+		}
+	}
+	for _, ut := range o.d.Types {
+		visit(ut.Fields)
+	}
+	for _, s := range o.d.Svcs {
+		for _, m := range s.Methods {
+			for _, io := range []*IO{m.Payload, m.SPayload, m.Result, m.SResult} {
+				if io != nil {
+					visit(io.Fields)
+				}
+			}
+		}
+	}
+	return clash
 }
 
 // protoStrip drops the ":transport" suffix goa allows in attribute names.
@@ -317,7 +354,7 @@ func (o *oracle) ioFields(io *IO) (fs []Fld, isObj bool, wrapped *Ty) {
 	return nil, false, io.T
 }
 
-func (o *oracle) checkTop(msg string, io *IO, removed [][]string, mapped bool, where string) {
+func (o *oracle) checkTop(msg string, io *IO, listed []string, removed [][]string, mapped bool, where string) {
 	fs, isObj, wrapped := o.ioFields(io)
 	if !isObj {
 		// primitive / array / map / alias: one required field named field numbered 1
@@ -349,7 +386,19 @@ func (o *oracle) checkTop(msg string, io *IO, removed [][]string, mapped bool, w
 	if mapped { // explicit Metadata / Headers / Trailers (credentials moved by goa itself do not switch validation off)
 		kind = "top-mapped"
 	}
-	o.checkMessage(msg, without(fs, removed...), &scope{Kind: kind, Where: where}, where)
+	// an explicit Message() puts its attributes first, in its own order; the others follow in design order
+	var first []Fld
+	for _, n := range listed {
+		for _, f := range fs {
+			if f.Name == n {
+				first = append(first, f)
+			}
+		}
+	}
+	if len(listed) > 0 {
+		kind = "top-mapped"
+	}
+	o.checkMessage(msg, append(first, without(fs, append(removed, listed)...)...), &scope{Kind: kind, Where: where}, where)
 }
 
 // Check runs the whole oracle on one service's .proto text.
@@ -403,15 +452,15 @@ func Check(d *Design, svc *Svc, text string) []Finding {
 		// ---- designed content of the request / response messages
 		w := svc.Name + "." + m.Name
 		if wantReq {
-			o.checkTop(r.Req, m.SPayload, nil, false, w+" streaming request")
+			o.checkTop(r.Req, m.SPayload, nil, nil, false, w+" streaming request")
 		} else {
-			o.checkTop(r.Req, m.Payload, [][]string{m.Metadata, m.SecNames(o.d)}, len(m.Metadata) > 0, w+" request")
+			o.checkTop(r.Req, m.Payload, msgNames(m.ReqMsg), [][]string{m.Metadata, m.SecNames(o.d)}, len(m.Metadata) > 0, w+" request")
 		}
 		res := m.Result
 		if m.SResult != nil {
 			res = m.SResult
 		}
-		o.checkTop(r.Resp, res, [][]string{m.Headers, m.Trailers}, len(m.Headers)+len(m.Trailers) > 0, w+" response")
+		o.checkTop(r.Resp, res, msgNames(m.RespMsg), [][]string{m.Headers, m.Trailers}, len(m.Headers)+len(m.Trailers) > 0, w+" response")
 	}
 
 	// ---- every message: numbers, names, references, map keys
